@@ -700,6 +700,28 @@ func runC08(env *vk.Env) {
 		}
 		env.Distinct("hostile/" + d.Name + "/heightmap-length")
 	}
+	// text components in NBT form whose shape is one of the three accepted ones (string, compound, list) with nothing
+	// in it: empty lists (of End, of strings, of compounds) at the top, inside extra, inside with; an empty compound; an
+	// empty string. What they mean is not fixed (value or error) - but the call returns without a panic.
+	for _, d := range hostileDecoders() {
+		if d.Name != "chat.Message.ReadFrom (NBT)" {
+			continue
+		}
+		str := func(v string) *nbtNode { return &nbtNode{T: 8, Pat: ints([]byte(v))} }
+		emptyLists := []*nbtNode{{T: 9, Et: 0, Lst: []*nbtNode{}}, {T: 9, Et: 8, Lst: []*nbtNode{}}, {T: 9, Et: 10, Lst: []*nbtNode{}}}
+		shapes := []*nbtNode{{T: 10, Ent: []nbtEntry{}}, str("")}
+		for _, el := range emptyLists {
+			shapes = append(shapes, el,
+				&nbtNode{T: 10, Ent: []nbtEntry{{K: ints([]byte("text")), N: str("a")}, {K: ints([]byte("extra")), N: el}}},
+				&nbtNode{T: 10, Ent: []nbtEntry{{K: ints([]byte("translate")), N: str("chat.type.text")}, {K: ints([]byte("with")), N: el}}},
+				&nbtNode{T: 9, Et: 9, Lst: []*nbtNode{el}},
+				&nbtNode{T: 10, Ent: []nbtEntry{{K: ints([]byte("text")), N: str("a")}, {K: ints([]byte("extra")), N: &nbtNode{T: 9, Et: 9, Lst: []*nbtNode{el}}}}})
+		}
+		for _, sh := range shapes {
+			tr.Add(hostileRun(d, nbtDocBytes("network", nil, sh), "other", "empty-shape"))
+		}
+		env.Distinct("hostile/" + d.Name + "/empty-shape")
+	}
 	hostileCommands(rng, tr, env.Pick(12, 80), env)
 	hostileDispatch(rng, tr, env.Pick(60, 600), env)
 	hostileJudge(env, tr, "B named mutations for chunks, entities, text components, registries, command lines")
